@@ -449,6 +449,12 @@ func (e *engine) obs() string {
 }
 
 func (e *engine) request(id string, post bool, path string, hdr bool) string {
+	return e.requestSeq(id, id, post, path, hdr)
+}
+
+// seq: the transaction's sequence id — the id of the first attempt for a retried one (x-lunar-sequence-id), its own id for a
+// first attempt, empty when the proxy sent none
+func (e *engine) requestSeq(id, seq string, post bool, path string, hdr bool) string {
 	method := "GET"
 	if post {
 		method = "POST"
@@ -458,7 +464,7 @@ func (e *engine) request(id string, post bool, path string, hdr bool) string {
 		headers["x-c02"] = "1"
 	}
 	on := lunar_messages.OnRequest{
-		ID: id, SequenceID: id, Method: method, Scheme: "https", URL: host + "/" + path, Path: "/" + path,
+		ID: id, SequenceID: seq, Method: method, Scheme: "https", URL: host + "/" + path, Path: "/" + path,
 		Headers: headers, Time: e.now(),
 	}
 	api := stream_types.NewRequestAPIStream(on, lunar_context.NewMemoryState[[]byte]())
@@ -487,12 +493,16 @@ func (e *engine) request(id string, post bool, path string, hdr bool) string {
 }
 
 func (e *engine) response(id string, post bool, path string) string {
+	return e.responseSeq(id, id, post, path)
+}
+
+func (e *engine) responseSeq(id, seq string, post bool, path string) string {
 	method := "GET"
 	if post {
 		method = "POST"
 	}
 	on := lunar_messages.OnResponse{
-		ID: id, SequenceID: id, Method: method, URL: host + "/" + path, Status: 200,
+		ID: id, SequenceID: seq, Method: method, URL: host + "/" + path, Status: 200,
 		Headers: map[string]string{}, Time: e.now(),
 	}
 	api := stream_types.NewResponseAPIStream(on, lunar_context.NewMemoryState[[]byte]())
